@@ -394,9 +394,26 @@ def _w_nll(res, p):
         for a in axioms:
             ex.assume(a)
         records.append(("nll-at-least-entropy",) + ex.prove(ST.zr_real(nll) >= H - (csum - 1)))
+        # the public wrapper hands back what the measure computes - also when both arguments are ONE object, and when they are
+        # equal but separate objects (the measure of a distribution against itself is its clipped cross-entropy, not 0)
+        from orquestra.quantum.distributions import evaluate_distribution_distance as EDD
+
+        t2, _, _, _ = _mk_pair(p, names)
+        sentinel, calls = object(), []
+
+        def measure(a, b, **kw):
+            calls.append((a, b, kw))
+            return sentinel
+
+        for what, a, b in (("pair", t, m), ("one-object", t, t), ("equal-objects", t, t2)):
+            got = EDD(a, b, measure, distance_measure_parameters=params)
+            ok = got is sentinel and bool(calls) and calls[-1][0] is a and calls[-1][1] is b and calls[-1][2].get("distance_measure_parameters") is params
+            records.append((f"wrapper-returns-the-measure:{what}",) + ex.prove(z3.BoolVal(ok)))
         return nll
 
-    with ST.patched((CN, "math", lnp), (JS, "math", lnp)):
+    import orquestra.quantum.distributions._measurement_outcome_distribution as MDm
+
+    with ST.patched((CN, "math", lnp), (JS, "math", lnp), (MDm, "math", ST.MathProxy(math))):
         ex = ST.Explorer(base=base, timeout_ms=15000)
         outs = ex.run(fn)
     for o in outs:
@@ -674,6 +691,16 @@ def replay(data):
                 return abs(ab - want) > 1e-9, f"{ab} vs {want}"
             eps = float(vals.get("eps", 1e-3))
             prm = {"epsilon": eps}
+            if clause.startswith("wrapper-returns-the-measure"):
+                from orquestra.quantum.distributions import evaluate_distribution_distance as EDD, MeasurementOutcomeDistribution as MOD2
+
+                t2 = MOD2(dict(t.distribution_dict), normalize=False)
+                a, b = {"pair": (t, m), "one-object": (t, t), "equal-objects": (t, t2)}[clause.split(":", 1)[1]]
+                for fn_ in (compute_clipped_negative_log_likelihood, compute_jensen_shannon_divergence):
+                    direct, via = fn_(a, b, prm), EDD(a, b, fn_, distance_measure_parameters=prm)
+                    if abs(direct - via) > 1e-12:
+                        return True, f"evaluate_distribution_distance(..., {fn_.__name__}) = {via} but the measure itself gives {direct}"
+                return False, "wrapper agrees with the measure"
             try:
                 nll = compute_clipped_negative_log_likelihood(t, m, prm)
                 jab, jba = compute_jensen_shannon_divergence(t, m, prm), compute_jensen_shannon_divergence(m, t, prm)
